@@ -238,24 +238,44 @@ def hunt_one(ctx, name, o, d, stats, history=None):
         fp = "reader:unreadable"
         ctx.violation(fp, "the independent reader cannot read the printed text: %s" % ex, dict(replay, fingerprint=fp, text=text))
         return
-    i = R.first_mismatch(exp, got)
-    if i is None:
-        return
-    e = exp[i] if i < len(exp) else None
-    g = got[i] if i < len(got) else None
-    where = e[2] if e is not None and len(e) > 2 else ""
-    if e is not None and where:
-        t, k = where.rsplit("/", 1)[-1].split(".", 1)
-        sig = slot_signature(t, k)
-        if sig == "allOf-ref-slot":
-            fp = "lexclass:allOf-ref-slot"
-        elif e[0] == "B" and g is not None and g[0] == "Q":
-            fp = "lexclass:list-binding-quoted"
+    # compare, resynchronising after a mismatch that is a listed finding so that later tokens are still checked
+    fp = None
+    for _round in range(50):
+        i = R.first_mismatch(exp, got)
+        if i is None:
+            return
+        e = exp[i] if i < len(exp) else None
+        g = got[i] if i < len(got) else None
+        where = e[2] if e is not None and len(e) > 2 else ""
+        if e is not None and where:
+            t, k = where.rsplit("/", 1)[-1].split(".", 1)
+            sig = slot_signature(t, k)
+            if sig == "allOf-ref-slot":
+                fp = "lexclass:allOf-ref-slot"
+            elif e[0] == "B" and g is not None and g[0] == "Q":
+                fp = "lexclass:list-binding-quoted"
+            else:
+                fp = "lexclass:%s:%s->%s" % (sig, e[0], g[0] if g else "none")
         else:
-            fp = "lexclass:%s:%s->%s" % (sig, e[0], g[0] if g else "none")
+            hid = g is not None and isinstance(g[1], str) and g[1].startswith("__")
+            fp = "hidden:printed" if hid else "structure:token-%s" % ("missing" if g is None else "extra" if e is None else "differs")
+        if ctx.match_known(fp) is None or not where:
+            break
+        # known finding at slot `where`: drop the rest of this slot's tokens on both sides and continue
+        stats["issue:" + fp] += 1
+        ctx.violation(fp, "", {})
+        j = i
+        while j < len(exp) and len(exp[j]) > 2 and exp[j][2] == where:
+            j += 1
+        nxt = exp[j] if j < len(exp) else None
+        m = i
+        while m < len(got) and not (nxt is not None and R.same_token(nxt, got[m])):
+            m += 1
+        if m >= len(got) and nxt is not None:
+            return          # the rest of the text was swallowed by the defect itself (e.g. an unquoted #rrggbb read as a comment)
+        exp, got = exp[j:], got[m:]
     else:
-        hid = g is not None and isinstance(g[1], str) and g[1].startswith("__")
-        fp = "hidden:printed" if hid else "structure:token-%s" % ("missing" if g is None else "extra" if e is None else "differs")
+        return
     stats["issue:" + fp] += 1
     if ctx.match_known(fp) is not None:
         ctx.violation(fp, "", {})
